@@ -23,7 +23,7 @@ pub fn plant(r: &GenRule, variant: usize) -> Option<GenRule> {
     if variant >= 3 {
         // inside a structure: every input alternative (insertion: every context environment) must hold a structure, whose first one gets the plant
         let at_start = variant == 4;
-        let mut plant_in = |items: &mut Vec<&'static str>| -> bool { for it in items.iter_mut() { if let Some(x) = planted_structure(it, at_start) { *it = x; return true; } } false };
+        let plant_in = |items: &mut Vec<&'static str>| -> bool { for it in items.iter_mut() { if let Some(x) = planted_structure(it, at_start) { *it = x; return true; } } false };
         if r.is_insertion() {
             if let Some(x) = p.special.as_mut() { return if plant_in(x) { Some(p) } else { None }; }
             if p.ctx.is_empty() { return None; }
